@@ -185,6 +185,38 @@ def run(tier, rnd, out):
             if e in left: left.remove(e); io.append(e)
             else: io.append("not delivered (the callback got: %s)" % (left[:1] or "nothing more"))
         lib.differential(out, label, cs, io, None, [e for _, e in enc], describe, sample=lambda c: describe(c)[:300], classify=lambda c, i: label)
+    # nobody but the bridge holds the callback's owner (shared with C07), and a second bridge object is started on the port of a running one
+    from props import c07
+    c07.run_unreferenced(out, rnd, 4 if tier == "quick" else 40)
+    cs = [mk_case(rnd, rand_desc(rnd, ty)) for ty in TYPES for _ in range(2)]; enc = encode(cs)
+    async def two():
+        port = world.free_udp_ports(1)[0]; a = []; b = []; marks = set()
+        def cb(log):
+            def f(dev):
+                if dev.name.startswith("SENTINEL"): marks.add(id(log))
+                else: log.append(show(dev))
+            return f
+        b1 = SwitcherBridge(cb(a), [port]); b2 = SwitcherBridge(cb(b), [port]); await b1.start()
+        try: await b2.start(); second = "started too"
+        except OSError: second = "was refused"
+        txs = [socket.socket(socket.AF_INET, socket.SOCK_DGRAM) for _ in range(6)]          # several senders (devices): sockets sharing a port are served per sender
+        try:
+            for k, (d, _) in enumerate(enc):
+                txs[k % 6].sendto(d, ("127.0.0.1", port))
+                for _ in range(4): await asyncio.sleep(0.001)
+            for tx in txs: tx.sendto(c06.sentinel(0), ("127.0.0.1", port))
+            for _ in range(1500):
+                if id(a) in marks: break
+                await asyncio.sleep(0.001)
+        finally:
+            for tx in txs: tx.close()
+            await b2.stop(); await b1.stop(); await asyncio.sleep(0)
+        return a, b, second
+    a, b, second = asyncio.run(two()); left = list(a); io = []
+    for _, e in enc:
+        if e in left: left.remove(e); io.append(e if e not in b else e + " (and the second bridge object got it too)")
+        else: io.append("not delivered to the running bridge (the second bridge object on the same port %s and got: %s)" % (second, "this broadcast" if e in b else "nothing of it"))
+    lib.differential(out, "a-second-bridge-object-started-on-the-port-of-a-running-one", cs, io, None, [e for _, e in enc], describe, sample=lambda c: describe(c)[:300])
     caps = captures()
     io = [impl(d) for d in caps]; mo = lib.run_model([lib.req("bcast", d) for d in caps])
     lib.differential(out, "captures", [{"datagram": d.hex()} for d in caps], io, mo, None, lambda c: "capture " + c["datagram"][:40])
